@@ -54,7 +54,8 @@ def keymap_specs_for(key_req, module, has_varargs, info_preserving_only=True, al
                     continue                      # sentinel only matters for flat keys
                 base = {'flat': flat, 'typed': typed, 'sentinel': sentinel}
                 # raw
-                if key_req in ('hashable', 'fname', 'evalable'):
+                if key_req in ('hashable', 'fname', 'evalable') or (key_req == 'bindable' and unhashable_ok and module == 'safe'):
+                    # (a sqlite table cannot bind a raw tuple key at all: under the safe decorators every call then degrades to plain evaluation)
                     ok = True
                     if not flat and (module != 'safe' or not unhashable_ok):
                         ok = False                # unhashable keys: only the C16 'safe degradation' check uses them
